@@ -37,6 +37,7 @@ EXPLANATION = (
     "(S3, search-start) a separator search start kept on self is 0 or len(buffer)-k with k >= len(separator)-1 at every assignment. (S4, drain) after a non-empty recv() every normal path of the pump calls recv() again before returning. "
     "(S4, parked) every recv() result is bound and handed to the inner protocol before the next engine call."
     ' (S5) connection_lost resets no attribute that is the receiver or an argument of a handler / upload-handler dispatch: a pending done-callback still finds what it hands to the handler.'
+    ' (S6) = C15.X2 on every dispatch path. (S7) = C14.U10: request parsers are not memoised.'
 )
 
 
@@ -649,6 +650,13 @@ def run(chk: Check) -> None:
     rule_s3(chk)
     rule_s4(chk)
     rule_s5(chk)
+    from .c15 import rule_x2
+    from .common import reuse as _reuse6
+
+    _reuse6(chk, rule_x2, "S6", "the request timer is disarmed on every path that hands a complete request to the chain / handler, whatever the segmentation (= C15.X2, machine): a line and body in one read must not keep a deadline that two reads cancel", ("X2",))
+    from .common import request_objects_fresh
+
+    request_objects_fresh(chk, "S7")
     chk.trusted = [
         "CPython ast parser",
         "engine CFG / inliner / BoolFacts path pruning",
